@@ -18,7 +18,7 @@ tvars == <<vars, l, bind>>
 
 TInit == Init /\ l = 1 /\ bind = <<>> /\ TLCSet(1, 1)
 
-IsInternal(lbl) == lbl \in {"i.wuf", "i.pause", "i.stop", "i.stop2", "i.stopall", "i.restart", "i.rs.nodes", "i.rs2", "i.start",
+IsInternal(lbl) == lbl \in {"i.wuf", "i.pause", "i.resume", "i.stop.fin", "i.stop", "i.stop2", "i.stopall", "i.restart", "i.rs.nodes", "i.rs2", "i.start",
                           "i.tune.loop", "i.purge.loop", "i.reap.next", "i.loop", "i.loop.lock", "i.disp.lock", "i.start.2", "i.range", "i.start.notify", "i.addall", "wuf.cw", "recv", "reap.wait", "ctx.wait", "dead"}
 \* pool goroutines, removers and listeners get their trace names when they are first seen at a hook,
 \* the spec names them when they are spawned: bind records the correspondence
@@ -45,6 +45,7 @@ ProjOK(e) ==
 ArgsOK(e, p) ==
   /\ e.ev \in {"add.enq", "disp.deq", "disp.proc", "serve.recv", "serve.fin", "serve.closed", "jclose.marked", "wf.enter", "wf.exit"} /\ e.job # 0
         => S'.loc[p].j = e.job
+  /\ e.ev = "disp.deq" => (S'.loc[p].j = 0) = ~e.ok
   /\ e.ev \in {"add.enq", "disp.proc"} => S'.loc[p].ok = e.ok
   /\ e.ev \in {"disp.node", "node.init", "serve.recv", "serve.freed", "stopall.removed", "tune.popped", "reap.removed", "reap.stopped"} => S'.loc[p].node = e.node
   /\ e.ev = "rel.enter" => S'.loc[p].n = e.n
